@@ -51,9 +51,8 @@ def interval(body, op, depth=0):
             vals = _array_ints(cc.get("pp", ""))
             if vals:
                 return (min(vals), max(vals))
-    if proj and [e for e in proj if not (isinstance(e, dict) and "downcast" in e)] and all(isinstance(e, dict) and ("downcast" in e or e.get("f") == 0) for e in proj) \
-            and len([e for e in proj if isinstance(e, dict) and "f" in e]) == 1:
-        r_ = _payload_interval(body, l, depth + 1)
+    if proj and all(isinstance(e, dict) and ("downcast" in e or "f" in e) for e in proj) and 1 <= len([e for e in proj if "f" in e]) <= 3:
+        r_ = _payload_interval(body, l, depth + 1, [e["f"] for e in proj if "f" in e])
         if r_ is not None and r_ != "empty":
             return r_
     if d is None:
@@ -137,7 +136,7 @@ def interval(body, op, depth=0):
 PAYLOAD_WRAPPERS = ("branch", "ok_or", "ok_or_else", "map_err", "ok", "or", "or_else", "into", "from", "into_iter", "clone", "copied", "cloned")
 
 
-def _payload_interval(body, l, depth=0):
+def _payload_interval(body, l, depth=0, path=(0,)):
     """interval of the single payload of an Option/Result/ControlFlow local whose every definition is `Some(<interval>)`-like, an
     empty variant, or a payload-preserving wrapper call of such a value (`opt.ok_or_else(..)?`)"""
     if depth > 12:
@@ -151,7 +150,7 @@ def _payload_interval(body, l, depth=0):
         if kind == "call":
             cs = CallSite(body, bb, x)
             if (cs.fn or cs.name or "").rsplit("::", 1)[-1] in PAYLOAD_WRAPPERS and cs.args and op_local(cs.args[0]) is not None and not (op_place(cs.args[0]) or {}).get("p"):
-                iv = _payload_interval(body, op_local(cs.args[0]), depth + 1)
+                iv = _payload_interval(body, op_local(cs.args[0]), depth + 1, path)
                 if iv == "empty":
                     continue
             if iv is None:
@@ -163,11 +162,26 @@ def _payload_interval(body, l, depth=0):
             if rv["k"] == "agg" and rv.get("agg") == "adt":
                 if not rv.get("ops"):
                     continue                      # None / unit-like variant: no payload on this path
-                if len(rv["ops"]) != 1:
+                if not path or path[0] >= len(rv["ops"]):
                     return None
-                iv = interval(body, rv["ops"][0], depth + 1)
+                o_ = rv["ops"][path[0]]
+                if len(path) == 1:
+                    iv = interval(body, o_, depth + 1)
+                elif op_local(o_) is not None and not (op_place(o_) or {}).get("p"):
+                    iv = _payload_interval(body, op_local(o_), depth + 1, list(path[1:]))
+                    if iv == "empty":
+                        continue
+                else:
+                    return None
+            elif rv["k"] == "use" and op_local(rv["op"]) is not None and (op_place(rv["op"]) or {}).get("p") \
+                    and all(isinstance(e, dict) and ("downcast" in e or "f" in e) for e in op_place(rv["op"])["p"]):
+                iv = _payload_interval(body, op_local(rv["op"]), depth + 1, [e["f"] for e in op_place(rv["op"])["p"] if "f" in e] + list(path))
+                if iv == "empty":
+                    continue
+            elif rv["k"] == "use" and op_const(rv["op"]) is not None and not path:
+                iv = interval(body, rv["op"], depth + 1)
             elif rv["k"] == "use" and op_local(rv["op"]) is not None and not (op_place(rv["op"]) or {}).get("p"):
-                iv = _payload_interval(body, op_local(rv["op"]), depth + 1)
+                iv = _payload_interval(body, op_local(rv["op"]), depth + 1, path)
                 if iv == "empty":
                     continue
             if iv is None:
@@ -286,8 +300,170 @@ def _size_expr(body, op, depth=0):
     return False
 
 
+def _fpath(p):
+    return [e["f"] for e in p["p"] if isinstance(e, dict) and "f" in e]
+
+
+def _overlaps(a, b):
+    n = min(len(a), len(b))
+    return a[:n] == b[:n]
+
+
+def _ref_place(body, op):
+    """the place behind an operand that is a (copy of a) `&place` / `&mut place` temporary"""
+    l = op_local(op)
+    for _ in range(6):
+        if l is None:
+            return None
+        d = single_def(body, l)
+        if d is None or d[0] != "stmt" or d[3]["s"] != "assign":
+            return None
+        rv = d[3]["rv"]
+        if rv["k"] == "ref":
+            if rv["place"]["p"] == ["*"]:
+                l = rv["place"]["l"]          # a reborrow `&mut *r`
+                continue
+            return rv["place"]
+        if rv["k"] == "use" and op_place(rv["op"]) is not None and not op_place(rv["op"])["p"]:
+            l = op_local(rv["op"])
+            continue
+        return None
+    return None
+
+
+def _index_in_len_range_loop(body, src):
+    """A11: `v[i]` where i is produced by `(0..v.len()).next()` for the SAME place v, and nothing in the loop can change v's
+    length: no assignment to / mutable borrow of an overlapping place, directly or through a `&mut` of an enclosing value whose uses
+    are all visible here (helpers inlined) and touch other fields only."""
+    t = body.term(src.bb)
+    if t["t"] != "call":
+        return None
+    cs = CallSite(body, src.bb, t)
+    if len(cs.args) < 2:
+        return None
+    pv = _ref_place(body, cs.args[0])
+    if pv is None or any(e == "*" or (isinstance(e, dict) and "f" not in e) for e in pv["p"]):
+        return None
+    # the index: payload of Range::next
+    l = op_local(cs.args[1])
+    nxt = None
+    for _ in range(8):
+        d = single_def(body, l) if l is not None else None
+        if d is None:
+            return None
+        if d[0] == "call":
+            c2 = CallSite(body, d[1], d[3])
+            if (c2.fn or "").endswith("Iterator::next") and "ops::range::Range<" in ((c2.res or "") + " ".join(c2.term.get("arg_tys") or [])):
+                nxt = c2
+            break
+        rv = d[3].get("rv") if d[3].get("s") == "assign" else None
+        if rv is None or rv["k"] != "use" or op_place(rv["op"]) is None:
+            return None
+        l = op_local(rv["op"])
+    if nxt is None:
+        return None
+    rplace = _ref_place(body, nxt.args[0])
+    if rplace is None or rplace["p"]:
+        return None
+    # the range value: `IntoIterator::into_iter(Range { start, end })` or the aggregate itself
+    end_op = None
+    rl = rplace["l"]
+    for _ in range(4):
+        ds = body.defs.get(rl, [])
+        if len(ds) != 1:
+            return None
+        k, bb, j, x = ds[0]
+        if k == "call":
+            c3 = CallSite(body, bb, x)
+            if (c3.fn or "").endswith("IntoIterator::into_iter") and c3.args and op_local(c3.args[0]) is not None:
+                rl = op_local(c3.args[0])
+                continue
+            return None
+        rv = x.get("rv") if x.get("s") == "assign" else None
+        if rv is None:
+            return None
+        if rv["k"] == "agg" and str(rv.get("adt", "")).startswith("core::ops::range::Range") and len(rv.get("ops", [])) == 2 and strip_generics(rv["adt"]) == "core::ops::range::Range":
+            end_op = rv["ops"][1]
+            break
+        if rv["k"] == "use" and op_local(rv["op"]) is not None and not op_place(rv["op"])["p"]:
+            rl = op_local(rv["op"])
+            continue
+        return None
+    if end_op is None:
+        return None
+    el = op_local(end_op)
+    de = single_def(body, el) if el is not None else None
+    while de is not None and de[0] == "stmt" and de[3].get("s") == "assign" and de[3]["rv"]["k"] == "use" and op_local(de[3]["rv"]["op"]) is not None and not op_place(de[3]["rv"]["op"])["p"]:
+        de = single_def(body, op_local(de[3]["rv"]["op"]))
+    if de is None or de[0] != "call":
+        return None
+    clen = CallSite(body, de[1], de[3])
+    if (clen.fn or "").rsplit("::", 1)[-1] != "len" or not clen.args:
+        return None
+    pl = _ref_place(body, clen.args[0])
+    if pl is None or pl["l"] != pv["l"] or _fpath(pl) != _fpath(pv) or any(e == "*" for e in pl["p"]):
+        return None
+    scc = body.scc_of(nxt.bb)
+    if scc is None or src.bb not in set(scc):
+        return None
+    root, vpath = pv["l"], _fpath(pv)
+    aliases = {}                    # local -> field path of the enclosing value it mutably points to
+    changed = True
+    blocks = [b_ for b_ in scc if not body.is_cleanup(b_)]
+    while changed:
+        changed = False
+        for b_ in blocks:
+            for st in body.blocks[b_]["stmts"]:
+                if st["s"] != "assign" or st["lhs"]["p"]:
+                    continue
+                rv = st["rv"]
+                if rv["k"] == "ref" and rv.get("bk") not in ("shared", "Shared", "fake"):
+                    pb = rv["place"]
+                    base = None
+                    if pb["l"] == root and not any(e == "*" for e in pb["p"]):
+                        base = _fpath(pb)
+                    elif pb["l"] in aliases and pb["p"] and pb["p"][0] == "*":
+                        base = aliases[pb["l"]] + _fpath(pb)
+                    if base is not None and aliases.get(st["lhs"]["l"]) != base:
+                        aliases[st["lhs"]["l"]] = base
+                        changed = True
+                elif rv["k"] == "use" and op_local(rv["op"]) in aliases and not op_place(rv["op"])["p"] and aliases.get(st["lhs"]["l"]) != aliases[op_local(rv["op"])]:
+                    aliases[st["lhs"]["l"]] = aliases[op_local(rv["op"])]
+                    changed = True
+    for l_, ap in aliases.items():
+        if len(ap) >= len(vpath) and _overlaps(ap, vpath):
+            return None             # a mutable reference to v itself (or into it)
+    for b_ in blocks:
+        for st in body.blocks[b_]["stmts"]:
+            if st["s"] != "assign":
+                continue
+            lp = st["lhs"]
+            if lp["l"] == root and lp["p"] and not any(e == "*" for e in lp["p"]) and _overlaps(_fpath(lp), vpath):
+                return None
+            if lp["l"] == root and not lp["p"]:
+                return None
+            if lp["l"] in aliases and lp["p"] and lp["p"][0] == "*" and _overlaps(aliases[lp["l"]] + _fpath(lp), vpath):
+                return None
+        tt = body.term(b_)
+        if tt["t"] == "call":
+            c4 = CallSite(body, b_, tt)
+            if c4.dest is not None and c4.dest["l"] == root and _overlaps(_fpath(c4.dest), vpath):
+                return None
+            for a in c4.args:
+                al = op_local(a)
+                if al in aliases and not (op_place(a) or {}).get("p") and _overlaps(aliases[al], vpath):
+                    # a `&mut` that covers v handed to a callee whose body is not visible here
+                    return None
+    return "A11 index produced by `0..v.len()` over the same vector, whose length nothing in the loop can change"
+
+
 def auto_discharge(body, src):
     """returns a reason string when the assert source is discharged automatically, else None"""
+    if src.kind == "index":
+        try:
+            return _index_in_len_range_loop(body, src)
+        except Exception:
+            return None
     if src.kind == "unwrap" and src.what == "core::option::Option::unwrap":
         # A6: `a.partial_cmp(&b).unwrap()` where the operands' type is totally ordered (Ord): partial_cmp is Some(cmp)
         t = body.term(src.bb)
